@@ -143,11 +143,6 @@ package decoder
 //@ contract (*decoder.PathDecoder).symbols (d, query) (result, err)
 //@   loop 2 iter [C14] (len(symbols) == old(len(symbols)) + 1) == (query == "" || strings.Contains(symbol.Name(), query))
 //@   loop 2 iter [C14] len(symbols) == old(len(symbols)) || len(symbols) == old(len(symbols)) + 1
-//@   loop 2 iter [C14] len(symbols) == old(len(symbols)) || (typeis(symbols[len(symbols)-1], "*decoder.ExprSymbol") && as(symbols[len(symbols)-1], "*decoder.ExprSymbol").rng == hcl.RangeBetween(item.KeyExpr.Range(), item.ValueExpr.Range()))
-//@   assert before (*decoder.PathDecoder).nestedSymbolsForExpr#1 : [C14] arg1 == item
-//@   assert before (*decoder.PathDecoder).nestedSymbolsForExpr#2 : [C14] arg1 == item.ValueExpr
-//@   assert before decoder.symbolExprKind#1 : [C14] arg0 == item
-//@   assert before decoder.symbolExprKind#2 : [C14] arg0 == item.ValueExpr
 //@ contract (*decoder.PathDecoder).symbolsForBody (d, body, bodySchema) (result)
 //@   loop 1 iter [C14] len(symbols) == old(len(symbols)) + 1
 //@   loop 1 iter [C14] typeis(symbols[len(symbols)-1], "*decoder.AttributeSymbol") && as(symbols[len(symbols)-1], "*decoder.AttributeSymbol").AttrName == name && as(symbols[len(symbols)-1], "*decoder.AttributeSymbol").rng == attr.Range
